@@ -93,13 +93,21 @@ Definition tgt_after_event (s : tgt_sess) (ret : Z) : tgt_sess * list tg_out * Z
   match tt_event s with
   | None => (s, [], ret)
   | Some e =>
-      let o1 := if e =? tg_EV_DTLS_CLOSED then [] else [OEvent e] in
-      if (e =? tg_EV_DTLS_ERROR) || (e =? tg_EV_DTLS_CLOSED) then
-        let '(s1, o2) := tgt_disconnected s tg_NACK_TLS_FAILED in (s1, o1 ++ o2, -1)
-      else (s, o1, ret)
+      (* the field only ever holds DTLS_CLOSED or DTLS_ERROR; both disconnect, ERROR is reported *)
+      let o1 := if e =? tg_EV_DTLS_CLOSED then [] else [OEvent tg_EV_DTLS_ERROR] in
+      let '(s1, o2) := tgt_disconnected s tg_NACK_TLS_FAILED in (s1, o1 ++ o2, -1)
   end.
 
-(* coap_tls_write on an established TLS session (the other branch is unreachable: tgt_inv) *)
+(* coap_tls_write: what a non-positive gnutls_record_send result leaves behind *)
+Definition tgt_write_fail (s1 : tgt_sess) (code : Z) : tgt_sess * Z :=
+  if code =? tg_E_AGAIN then (s1, 0)
+  else if tg_in code [tg_E_PUSH_ERROR; tg_E_PULL_ERROR; tg_E_PREMATURE_TERMINATION]
+       then (tgt_set_event s1 (Some tg_EV_DTLS_CLOSED), code)
+  else if code =? tg_E_FATAL_ALERT_RECEIVED
+       then (tgt_set_event (tgt_set_tls s1 (tt_tls s1) (tt_est s1) true) (Some tg_EV_DTLS_CLOSED), code)
+  else (s1, -1).
+
+(* coap_tls_write on an established TLS session (the other branch is unreachable: tgt_I) *)
 Definition tgt_write (s : tgt_sess) (m : tg_msg) : tgt_sess * list tg_out * Z :=
   if negb (tt_tls s && tt_est s) then (s, [], -1)
   else
@@ -109,13 +117,7 @@ Definition tgt_write (s : tgt_sess) (m : tg_msg) : tgt_sess * list tg_out * Z :=
     let o := [OTlsTx (tm_id m) code] in
     if 0 <? code then (s1, o, code)
     else
-      let '(s2, ret) :=
-        if code =? tg_E_AGAIN then (s1, 0)
-        else if tg_in code [tg_E_PUSH_ERROR; tg_E_PULL_ERROR; tg_E_PREMATURE_TERMINATION]
-             then (tgt_set_event s1 (Some tg_EV_DTLS_CLOSED), code)
-        else if code =? tg_E_FATAL_ALERT_RECEIVED
-             then (tgt_set_event (tgt_set_tls s1 (tt_tls s1) (tt_est s1) true) (Some tg_EV_DTLS_CLOSED), code)
-        else (s1, -1) in
+      let '(s2, ret) := tgt_write_fail s1 code in
       let '(s3, o3, r3) := tgt_after_event s2 ret in
       (s3, o ++ o3, r3).
 
@@ -156,35 +158,40 @@ Definition tgt_establish (s : tgt_sess) : tgt_sess * list tg_out :=
     let '(s3, o3) := tgt_send_csm s2 in (s3, o2 ++ [OEvent tg_EV_DTLS_CONNECTED] ++ o3)
   else (s2, o2).
 
+(* coap_tls_read, first half: continue the handshake if it is not finished *)
+Definition tgt_read_hs (s : tgt_sess) : tgt_sess * list tg_out * Z :=
+  if negb (tt_est s) && negb (tt_sent_alert s) then
+    let '(sa, oa, r) := tgt_hs_call s in
+    if r =? 1 then
+      let '(sb, ob) := tgt_send_csm sa in (sb, oa ++ [OEvent tg_EV_DTLS_CONNECTED] ++ ob, 0)
+    else (sa, oa, r)
+  else (s, [], -1).
+
+(* coap_tls_read, second half: gnutls_record_recv on an established session *)
+Definition tgt_read_rec (s1 : tgt_sess) (ret1 : Z) : tgt_sess * list tg_out * Z :=
+  if negb (tg_state_eqb (tt_state s1) TgNone) && tt_est s1 then
+    let code := or_rx O (tt_krx s1) in
+    let sx := tgt_set_k s1 (tt_khs s1) (tt_ktx s1) (tt_krx s1 + 1) in
+    let o := [OTlsRx code] in
+    if 0 <? code then (tgt_set_rxdata sx true, o, code)
+    else if code =? 0 then (tgt_set_event sx (Some tg_EV_DTLS_CLOSED), o, 0)
+    else if code =? tg_E_AGAIN then (sx, o, 0)
+    else if code =? tg_E_PULL_ERROR then (tgt_set_event sx (Some tg_EV_DTLS_ERROR), o, code)
+    else if code =? tg_E_FATAL_ALERT_RECEIVED then
+      (tgt_set_event (tgt_set_tls sx (tt_tls sx) (tt_est sx) true) (Some tg_EV_DTLS_CLOSED), o, code)
+    else if code =? tg_E_WARNING_ALERT_RECEIVED then (tgt_set_event sx (Some tg_EV_DTLS_ERROR), o, code)
+    else (sx, o, -1)
+  else (s1, [], ret1).
+
 (* one coap_tls_read call from coap_read_session, and coap_read_session's reaction to a
    negative result *)
 Definition tgt_read (s00 : tgt_sess) : tgt_sess * list tg_out :=
   let s0 := tgt_set_rxdata s00 false in
-  if negb (tt_tls s0) then
-    let '(s1, o1) := tgt_disconnected s0 tg_NACK_NOT_DELIVERABLE in (s1, o1)
+  if negb (tt_tls s0) then tgt_disconnected s0 tg_NACK_NOT_DELIVERABLE
   else
     let s := tgt_set_event s0 None in
-    let '(s1, o1, ret1) :=
-      if negb (tt_est s) && negb (tt_sent_alert s) then
-        let '(sa, oa, r) := tgt_hs_call s in
-        if r =? 1 then
-          let '(sb, ob) := tgt_send_csm sa in (sb, oa ++ [OEvent tg_EV_DTLS_CONNECTED] ++ ob, 0)
-        else (sa, oa, r)
-      else (s, [], -1) in
-    let '(s2, o2, ret2) :=
-      if negb (tg_state_eqb (tt_state s1) TgNone) && tt_est s1 then
-        let code := or_rx O (tt_krx s1) in
-        let sx := tgt_set_k s1 (tt_khs s1) (tt_ktx s1) (tt_krx s1 + 1) in
-        let o := [OTlsRx code] in
-        if 0 <? code then (tgt_set_rxdata sx true, o, code)
-        else if code =? 0 then (tgt_set_event sx (Some tg_EV_DTLS_CLOSED), o, 0)
-        else if code =? tg_E_AGAIN then (sx, o, 0)
-        else if code =? tg_E_PULL_ERROR then (tgt_set_event sx (Some tg_EV_DTLS_ERROR), o, code)
-        else if code =? tg_E_FATAL_ALERT_RECEIVED then
-          (tgt_set_event (tgt_set_tls sx (tt_tls sx) (tt_est sx) true) (Some tg_EV_DTLS_CLOSED), o, code)
-        else if code =? tg_E_WARNING_ALERT_RECEIVED then (tgt_set_event sx (Some tg_EV_DTLS_ERROR), o, code)
-        else (sx, o, -1)
-      else (s1, [], ret1) in
+    let '(s1, o1, ret1) := tgt_read_hs s in
+    let '(s2, o2, ret2) := tgt_read_rec s1 ret1 in
     let '(s3, o3, ret3) := tgt_after_event s2 ret2 in
     if ret3 <? 0 then
       let '(s4, o4) := tgt_disconnected s3 tg_NACK_NOT_DELIVERABLE in (s4, o1 ++ o2 ++ o3 ++ o4)
